@@ -82,23 +82,41 @@ def run(ctx):
     quick = ctx.quick
     rng = ctx.rng
     # ---- 1. TLC
-    res = run_tlc('Engine', engine_cfg(ctx, 'rep.cfg', invs=['Repeatable', 'NoPoison', 'Balanced'], queries=2), workers=16,
-                  timeout=3000)
-    ctx.add_tlc(res, 'Repeatable/NoPoison: all graphs K=4 x histories of 2 queries (+ValueError queries)')
+    res = run_tlc('Engine', engine_cfg(ctx, 'rep.cfg', invs=['Repeatable', 'NoPoison', 'Balanced'], queries=2, tainted='FALSE'),
+                  workers=16, timeout=3000)
+    ctx.add_tlc(res, 'repaired design (partial values not memoised): Repeatable/NoPoison, all graphs K=4 x histories of 2 '
+                     'queries (+ValueError queries)')
     if res.violated:
         ctx.violation('design:%s' % res.violated, 'Engine.tla violates %s' % res.violated, {'trace': res.trace[-3:]})
         return ctx.finish()
     if res.distinct < 50000:
         raise MachineryError('vacuity: %d states' % res.distinct)
     ctx.coverage['exhaustive'] = True
-    res = run_tlc('Engine', engine_cfg(ctx, 'whatif_counts.cfg', invs=['Repeatable'], reset='FALSE', queries=3), workers=16,
+    # the design as coded keeps partial values of module-level statements: TLC shows the order dependence
+    res = run_tlc('Engine', engine_cfg(ctx, 'rep_coded.cfg', invs=['Repeatable'], queries=2, tainted='TRUE'), workers=16,
+                  timeout=3000)
+    ctx.add_tlc(res, 'design as coded (TaintedReused=TRUE): Repeatable')
+    if res.violated == 'Repeatable':
+        last = res.trace[-1]['vars'] if res.trace else {}
+        ctx.violation('design:Repeatable:partial-memo', 'Engine.tla with the code\'s memoisation of partial values violates '
+                      'Repeatable: a statement inferred while a cycle through it was cut keeps the partial value, a later '
+                      'query for it answers differently from a fresh Script',
+                      {'graph': last.get('dep'), 'target': last.get('target'), 'steps': [s['action'] for s in res.trace][-12:]})
+    NoPoisonCoded = run_tlc('Engine', engine_cfg(ctx, 'np_coded.cfg', invs=['NoPoison', 'Balanced'], queries=2, tainted='TRUE'),
+                            workers=16, timeout=3000)
+    ctx.add_tlc(NoPoisonCoded, 'design as coded: NoPoison, Balanced')
+    if NoPoisonCoded.violated:
+        ctx.violation('design:%s' % NoPoisonCoded.violated, 'Engine.tla violates %s' % NoPoisonCoded.violated,
+                      {'trace': NoPoisonCoded.trace[-3:]})
+        return ctx.finish()
+    res = run_tlc('Engine', engine_cfg(ctx, 'whatif_counts.cfg', invs=['Repeatable'], reset='FALSE', queries=3, tainted='FALSE'), workers=16,
                   timeout=3000)
     ctx.add_tlc(res, 'what-if ResetCounts=FALSE (the code before the fix; must fail)')
     if res.violated != 'Repeatable':
         raise MachineryError('what-if ResetCounts=FALSE did not violate Repeatable')
     ctx.coverage['whatif_budget_carry_over'] = 'violates Repeatable after %d steps' % len(res.trace)
     res = run_tlc('Engine', engine_cfg(ctx, 'raise.cfg', invs=['NoPoison', 'Repeatable', 'Balanced'], raises=1, K=3, funcs='3',
-                                       queries=2), workers=16, timeout=3000)
+                                       queries=2, tainted='FALSE'), workers=16, timeout=3000)
     ctx.add_tlc(res, 'queries that raise in the middle of an inference: NoPoison, Repeatable, Balanced')
     if res.violated:
         ctx.violation('design:%s' % res.violated, 'Engine.tla with Raise violates %s' % res.violated, {'trace': res.trace[-3:]})
@@ -170,6 +188,14 @@ def run(ctx):
                 hist = hist + hist[:1]      # guarantees a repetition
             same_jobs.append({'src': src, 'path': path, 'mode': 'same', 'queries': [qs[i] for i in hist]})
             hist_index.append((si, hist))
+        if name.startswith('graph'):
+            # the order dependence TLC finds for the design as coded: every ordered pair of statement queries
+            inf = [i for i, q in enumerate(qs) if q[0] == 'infer' and q[1] < 9999]
+            for a in inf:
+                for b in inf:
+                    if a != b:
+                        same_jobs.append({'src': src, 'path': path, 'mode': 'same', 'queries': [qs[a], qs[b]]})
+                        hist_index.append((si, [a, b]))
     ctx.log('%d sources, %d histories' % (len(sources), len(same_jobs)))
     if os.environ.get('C16_DUMP'):            # debugging aid: the exact job lists of this run
         os.makedirs(os.environ['C16_DUMP'], exist_ok=True)
@@ -208,20 +234,20 @@ def run(ctx):
     nobs = 0
     for si, (name, src, path, qs, model) in enumerate(sources):
         ev = []
-        for qi, (dg, oc, _sd) in enumerate(fresh[si]):
+        for qi, (dg, oc, _sd, *_el) in enumerate(fresh[si]):
             ev.append(full({'ev': 'Obs', 'key': qi + 1, 'val': dg}))
         for (sj, hist), obs in zip(hist_index, same):
             if sj != si:
                 continue
-            for qi, (dg, oc, _sd) in zip(hist, obs):
+            for qi, (dg, oc, _sd, *_el) in zip(hist, obs):
                 ev.append(full({'ev': 'Obs', 'key': qi + 1, 'val': dg}))
         nobs += len(ev)
         traces.append(ev)
         owners.append(('repeatability', si))
         if si in cross:
-            ev2 = [full({'ev': 'Obs', 'key': qi + 1, 'val': dg}) for qi, (dg, oc, _sd) in enumerate(fresh[si])]
+            ev2 = [full({'ev': 'Obs', 'key': qi + 1, 'val': dg}) for qi, (dg, oc, _sd, *_el) in enumerate(fresh[si])]
             for r in cross[si]:
-                ev2 += [full({'ev': 'Obs', 'key': qi + 1, 'val': dg}) for qi, (dg, oc, _sd) in enumerate(r)]
+                ev2 += [full({'ev': 'Obs', 'key': qi + 1, 'val': dg}) for qi, (dg, oc, _sd, *_el) in enumerate(r)]
             nobs += len(ev2)
             traces.append(ev2)
             owners.append(('cross-process', si))
@@ -229,7 +255,7 @@ def run(ctx):
         if model is not None:
             pass
     ctx.coverage['observations'] = nobs
-    ctx.coverage['failing_queries_in_histories'] = sum(1 for obs in same for (dg, oc, _sd) in obs if oc != 'ok')
+    ctx.coverage['failing_queries_in_histories'] = sum(1 for obs in same for (dg, oc, _sd, *_el) in obs if oc != 'ok')
     ctx.log('validating %d observation traces (%d observations)' % (len(traces), nobs))
     vs = validate_traces('Trace_Engine', 'Trace_Engine.cfg', traces, ctx, 'Trace_Engine observations', chunk=800, timeout=3000)
     # TLC's verdict says WHICH traces break the functional dependence; the classification of a rejected
@@ -264,8 +290,17 @@ def run(ctx):
                 ctx.violation('nondeterministic-order:%s' % q[0], 'fresh processes return the same results in different order',
                               desc)
             elif hist_ords and not hist_ords <= ords:
-                ctx.violation('repeatability:%s' % (name.split(':')[0] if not name.startswith('graph') else 'graph'),
-                              'on one Script, after other queries, a query answers differently from a fresh Script', desc)
+                # fewer results than a fresh Script gives (a partial value was memoised) or different ones?
+                fresh_el = set(fresh_runs[0][qi][3]) if len(fresh_runs[0][qi]) > 3 else None
+                rel = 'other'
+                for o in hist_obs.get(qi, []):
+                    if o[0] not in ords and len(o) > 3 and fresh_el is not None and o[1] == 'ok':
+                        rel = 'partial-result' if set(o[3]) < fresh_el else 'other'
+                        if rel == 'other':
+                            break
+                ctx.violation('repeatability:%s:%s' % (name.split(':')[0] if not name.startswith('graph') else 'graph', rel),
+                              'on one Script, after other queries, a query answers differently from a fresh Script'
+                              + (' (it returns a proper subset of the results)' if rel == 'partial-result' else ''), desc)
     for (name, src, path, qs, _) in sources[:3]:
         ctx.sample({'source': name, 'queries': qs[:5], 'text': src[:300]})
     # model answers vs code answers of the reference queries (drift)
